@@ -607,6 +607,16 @@ func c10Creation(c *Ctx, p *Prog, m *Model) {
 			if fa, ok := in.(*ssa.FieldAddr); ok && fa.X == ssa.Value(parent) {
 				f := nm(structOf(fa.X.Type()).Field(fa.Field))
 				if f != "useJSON" && f != "useColor" && f != "level" {
+					// a setting that did not exist when the rules were written (not among the recorded fields of the
+					// logger) and is a plain value handed down into the same field of the child is a new inherited
+					// setting; sharing of a reference (slice, map, pointer, interface) or of one of the existing
+					// settings is what the property excludes
+					fv := structOf(fa.X.Type()).Field(fa.Field)
+					ref := loadAnchorRef()
+					known := ref == nil || ref["field|slog|Entry|"+nm(fv)] != nil
+					if bt, isB := fv.Type().Underlying().(*types.Basic); isB && !known && bt.Kind() != types.UnsafePointer && sameFieldOnly(fa, fv.Name()) {
+						continue
+					}
 					extra = append(extra, f)
 				}
 			}
@@ -946,4 +956,43 @@ func isSettingField(f string) bool {
 		}
 	}
 	return f == "owner" || f == "items" || f == "name" || f == "handlerOpt"
+}
+
+// sameFieldOnly: the value loaded through fa is used only as the initial value of the field of the same name
+// (directly or through joins), never for anything else.
+func sameFieldOnly(fa *ssa.FieldAddr, field string) bool {
+	seen := map[ssa.Value]bool{}
+	var ok func(v ssa.Value) bool
+	ok = func(v ssa.Value) bool {
+		if seen[v] {
+			return true
+		}
+		seen[v] = true
+		refs := v.Referrers()
+		if refs == nil {
+			return true
+		}
+		for _, ref := range *refs {
+			switch x := ref.(type) {
+			case *ssa.UnOp:
+				if !ok(x) {
+					return false
+				}
+			case *ssa.Phi:
+				if !ok(x) {
+					return false
+				}
+			case *ssa.Store:
+				fa2, isFA := x.Addr.(*ssa.FieldAddr)
+				if !isFA || x.Val != v || structOf(fa2.X.Type()) == nil || structOf(fa2.X.Type()).Field(fa2.Field).Name() != field {
+					return false
+				}
+			case *ssa.DebugRef:
+			default:
+				return false
+			}
+		}
+		return true
+	}
+	return ok(fa)
 }
